@@ -38,16 +38,48 @@ class LazyOperator:
         "gt": ">",
     }
 
+    # Binding strength of the operators as they are parsed within a call. Unary operators bind
+    # tighter than any binary operator. All the binary operators are left-associative.
+    PRECEDENCE = {
+        "==": 1,
+        "!=": 1,
+        "<=": 1,
+        "<": 1,
+        ">=": 1,
+        ">": 1,
+        "+": 2,
+        "-": 2,
+        "*": 3,
+        "/": 3,
+        "**": 4,
+    }
+    UNARY_PRECEDENCE = 5
+
     def __init__(self, op, *args):
         self.op = op
         self.args = args
         self.symbol = self.SYMBOLS[op.__name__]
 
+    @property
+    def precedence(self):
+        if len(self.args) == 1:
+            return self.UNARY_PRECEDENCE
+        return self.PRECEDENCE[self.symbol]
+
+    def _str_operand(self, arg, is_right):
+        """Wrap an operand in parentheses when it is needed to spell the same expression"""
+        if isinstance(arg, LazyOperator):
+            if arg.precedence < self.precedence or (arg.precedence == self.precedence and is_right):
+                return f"({arg})"
+        return str(arg)
+
     def __str__(self):
         if len(self.args) == 1:
-            return f"{self.symbol}{self.args[0]}"
+            return f"{self.symbol}{self._str_operand(self.args[0], False)}"
         else:
-            return f"{self.args[0]} {self.symbol} {self.args[1]}"
+            left = self._str_operand(self.args[0], False)
+            right = self._str_operand(self.args[1], True)
+            return f"{left} {self.symbol} {right}"
 
     def __hash__(self):
         return hash((self.symbol, *self.args))
